@@ -729,6 +729,8 @@ impl MqttClientImpl {
             OperationOptions::Shutdown() => {
                 debug!("Updating desired state to Shutdown");
                 self.protocol_state.reset(&current_time);
+                // the reset has failed a DISCONNECT that a previous stop request may still be waiting on
+                self.desired_stop_options = None;
                 self.desired_state = ClientImplState::Shutdown;
             }
             OperationOptions::AddListener(id, listener) => {
